@@ -42,6 +42,17 @@ func (h hleaf) GetHashBytes() []byte { return unhx(string(h)) }
 
 func c19Hash(s string) string { return hx(sha3sum([]byte(s))) }
 
+// c19Digest: FNV-1a 64 of a long canonical text (tree array, all paths) — a cheap fingerprint for the comparison
+// with the model; hashes inside the tree are always real SHA3
+func c19Digest(s string) string {
+	h := uint64(0xcbf29ce484222325)
+	for i := 0; i < len(s); i++ {
+		h ^= uint64(s[i])
+		h *= 0x100000001b3
+	}
+	return fmt.Sprintf("%016x", h)
+}
+
 func c19Leaf(tag string, i int) string { return c19Hash(tag + "/" + strconv.Itoa(i)) }
 
 // c19Levels: the specification of the tree
@@ -118,7 +129,7 @@ func c19PathsDigest(n int, get func(i int) *util.MTPath) string {
 		p := get(i)
 		fmt.Fprintf(&sb, "%d:%s\n", p.LeafIndex, c19Nodes(p.Nodes))
 	}
-	return c19Hash(sb.String())
+	return c19Digest(sb.String())
 }
 
 func runC19(ops []string) CaseResult {
@@ -220,7 +231,7 @@ func runC19(ops []string) CaseResult {
 						tags["odd-inner-level"] = true
 					}
 				}
-				return fmt.Sprintf("ok %d %s %s", len(t), mt.GetRoot(), c19Hash(strings.Join(t, ",")))
+				return fmt.Sprintf("ok %d %s %s", len(t), mt.GetRoot(), c19Digest(strings.Join(t, ",")))
 			case "tree":
 				return "ok " + strings.Join(mt.GetTree(), ",")
 			case "pathidx", "pathleaf":
@@ -474,7 +485,10 @@ func exhC19(tier string, emit func([]string)) {
 	if tier == "thorough" {
 		maxN = 3000
 	}
-	for n := 1; n <= maxN; n++ {
+	// every n exactly once, in a scattered order (7919 is coprime to both bounds) so that the contiguous chunks the
+	// model run is split into carry similar work
+	for k := 0; k < maxN; k++ {
+		n := 1 + (k*7919)%maxN
 		emit(c19Case(rand.New(rand.NewSource(int64(n))), n, "e", 0, tier))
 	}
 }
